@@ -85,7 +85,7 @@ def add_scaling(rng, spec, ctype, p=1.0):
             continue
         scales = scalemodel.gen_scales(rng)
         L['props'] = [pr for pr in L['props'] if not pr[0].startswith('NI_')] + scalemodel.scale_props(
-            scales, with_count=rng.random() < 0.6, status=rng.choice([None, 'unscaled']))
+            scales, with_count=rng.random() < 0.6, status=rng.choice([None, 'unscaled']), order=rng.choice(['asc', 'asc', 'desc']))
         for q in under:
             scaled[q] = True
         if level != path and rng.random() < 0.3:
